@@ -3,7 +3,14 @@
 Direction 0 = calls issued on A and entered on B; direction 1 = calls issued on B and entered on A.
 A *scenario* is a list of script steps
 
-    ["issue", dir, spec]        spec = dict(kind=..., stalls=n, only=bool, reenter=[spec, ...])
+    ["issue", dir, spec]        spec = dict(kind=..., stalls=n, only=bool, reenter=[spec, ...],
+                                            target=None | "meth" | "func"   the call is addressed to a bare callable of the
+                                                receiver (a bound method / a function handed out as a reference with a
+                                                negative clid: RemoteMethodReference) instead of a Referenceable,
+                                            inner=dict(at="copy"|"start"|"mid"|"resume"|"end", calls=[spec, ...])
+                                                further calls are issued from INSIDE the send-side serialization of this
+                                                call's argument (see HOOK_POSITIONS); spec["rev"] sends one of them in
+                                                the opposite direction)
     ["release", dir]            fire the Deferred on which the sender of `dir` is stalled (if any)
     ["deliver", dir, chunks]    move bytes of `dir` up to the end of the next completely serialized tracked
                                 call (or all bytes if there is none), cut into pieces by `chunks`
@@ -33,7 +40,7 @@ import gc
 from twisted.internet import defer
 from zope.interface import implementer
 from twisted.python import failure
-from foolscap import broker, slicer, call, referenceable, tokens
+from foolscap import broker, slicer, call, referenceable, tokens, copyable
 from foolscap.api import Referenceable, RemoteInterface
 from foolscap.schema import Any
 from foolscap.referenceable import TubRef
@@ -86,23 +93,68 @@ class Unserializable:
     """no slicer is registered for this class: Banana.produce raises a Violation while slicing the argument"""
 
 
+# where, during the serialization of an argument, application code can get control and call callRemote / callRemoteOnly:
+#   copy    Copyable.getStateToCopy (called by CopyableSlicer from inside Banana.produce)
+#   start   the body of a streaming slicer before its first token
+#   mid     between two chunks of a streaming slicer -- with stalls: right before it pauses on its first Deferred
+#   resume  right after the first pause ended (produce() re-entered through the Deferred); without stalls = mid
+#   end     after the last chunk, as the slicer finishes
+HOOK_POSITIONS = ("copy", "start", "mid", "resume", "end")
+
+
 class StallArg(slicer.BaseSlicer):
-    """an argument that is its own streaming slicer: a list whose body pauses `n` times on a Deferred"""
+    """an argument that is its own streaming slicer: a list whose body pauses `n` times on a Deferred; `hooks` maps a
+    position (HOOK_POSITIONS) to a callable that is run there, i.e. from inside Banana.produce"""
     opentype = ("list",)
     trackReferences = False
 
-    def __init__(self, side, n):
+    def __init__(self, side, n, hooks=None):
         slicer.BaseSlicer.__init__(self, None)
         self.side = side
         self.n = n
+        self.hooks = dict(hooks or {})
+
+    def fire(self, pos):
+        h = self.hooks.pop(pos, None)
+        if h is not None:
+            h()
 
     def sliceBody(self, streamable, banana):
+        self.fire("start")
+        if self.n == 0:
+            yield 0
+            self.fire("mid")
+            self.fire("resume")
         for i in range(self.n):
             yield i
+            self.fire("mid")
             d = defer.Deferred()
             self.side.stall = d
             yield d
+            self.fire("resume")
         yield 99
+        self.fire("end")
+
+
+class HookCopy(copyable.Copyable):
+    """a Copyable argument whose getStateToCopy() runs application code (the hook) in the middle of serialization"""
+    typeToCopy = "c04-hook-copy"
+
+    def __init__(self, hook):
+        self.hook = hook
+
+    def getStateToCopy(self):
+        h, self.hook = self.hook, None
+        if h is not None:
+            h()
+        return {"v": 1}
+
+
+class HookCopyRemote(copyable.RemoteCopy):
+    copytype = "c04-hook-copy"
+
+    def setCopyableState(self, state):
+        self.state = state
 
 
 class FakeTub:
@@ -131,13 +183,11 @@ class Target(Referenceable):
         self.d = d          # direction whose calls are entered here
 
     def remote_m(self, cid, a=None, x=None, g=None):
-        self.world.entered_call(self.d, cid)
-        if g == "slow":
-            # the method has been entered; its result arrives (or fails) whenever the harness says so
-            dd = defer.Deferred()
-            self.world.slow[self.d][cid] = dd
-            return dd
-        return cid
+        return self.world.method_body(self.d, cid, g)
+
+    def hook(self, cid, a=None, x=None, g=None):
+        # handed out as a bare bound method (target="meth"): entered through Broker._doCall's `methodname is None` branch
+        return self.world.method_body(self.d, cid, g)
 
 
 class Side:
@@ -213,6 +263,10 @@ class World:
         self.sides = [Side(), Side()]
         self.targets = [Target(self, 0), Target(self, 1)]       # targets[d] lives on the receiver of direction d
         self.rrefs = [self._export(self.B, self.A, self.targets[0]), self._export(self.A, self.B, self.targets[1])]
+        # bare callables of the receiver of direction d, handed out like CallableSlicer does (negative clid)
+        self.callables = [self._callables(0), self._callables(1)]
+        self.crefs = [{k: self._export_call(self.B, self.A, f) for k, f in sorted(self.callables[0].items())},
+                      {k: self._export_call(self.A, self.B, f) for k, f in sorted(self.callables[1].items())}]
         self.third = broker.Broker(TubRef(THIRD_TUBID))              # home of the references given away as gifts
         self.ops = [[], []]         # model ops per direction, grouped per script step: list of lists
         self.cur_ops = [[], []]
@@ -246,13 +300,25 @@ class World:
         tr.send()
         return user.getTrackerForYourReference(tr.clid, RIOrderC04.__remote_name__).getRef()
 
+    def _callables(self, d):
+        def func(cid, a=None, x=None, g=None):
+            return self.method_body(d, cid, g)
+        return {"meth": self.targets[d].hook, "func": func}
+
+    def _export_call(self, holder, user, fn):
+        tr = holder.getTrackerForMyCall(id(fn), fn)
+        tr.send()
+        rr = user.getTrackerForYourReference(tr.clid, None).getRef()
+        assert isinstance(rr, referenceable.RemoteMethodReference), rr
+        return rr
+
     def _instrument(self, d):
         S, R, side = self.brokers[d], self.brokers[1 - d], self.sides[d]
         real_send = S.send
 
         def send(obj):
             cid = None
-            if isinstance(obj, call.CallSlicer) and obj.methodname == "m" and cid_of_args(obj.args, obj.kwargs) in side.meta:
+            if isinstance(obj, call.CallSlicer) and obj.methodname in ("m", "") and cid_of_args(obj.args, obj.kwargs) in side.meta:
                 cid = cid_of_args(obj.args, obj.kwargs)
                 kind, fate, stalls = side.meta[cid]
                 obj.c04_kind = kind
@@ -260,15 +326,35 @@ class World:
                 if obj.reqID:
                     side.reqid2cid[obj.reqID] = cid
                 self.cur_ops[d].append(("I", fate, stalls, side.ngifts.get(cid, 0)))
+                obj.c04_cid = cid
             dd = real_send(obj)
             if cid is not None and not self.loopback:
                 def done(res, cid=cid):
-                    side.serialized[cid] = self.tr[d].written
-                    side.order.append(cid)
+                    finished(cid)
                     return res
                 dd.addBoth(done)
             return dd
         S.send = send
+
+        def finished(cid):
+            """the serialization of call cid has ended: everything written so far belongs to it or to earlier calls"""
+            if cid not in side.serialized:
+                side.serialized[cid] = self.tr[d].written
+                side.order.append(cid)
+
+        # the exact moment: Banana.popSlicer takes the CallSlicer off the stack and writes its CLOSE.  (The Deferred returned
+        # by send() fires right afterwards, but a callback can only be added to it once send() has returned -- too late when
+        # send() itself ran the producer and further calls were issued and serialized from inside it.)
+        real_pop = S.popSlicer
+
+        def popSlicer():
+            top = S.slicerStack[-1][0] if S.slicerStack else None
+            res = real_pop()
+            cid = getattr(top, "c04_cid", None)
+            if cid is not None and not self.loopback:
+                finished(cid)
+            return res
+        S.popSlicer = popSlicer
 
         real_schedule = R.scheduleCall
 
@@ -294,7 +380,19 @@ class World:
     def _cid_of(self, delivery):
         if delivery.methodname == "m" and isinstance(delivery.obj, Target):
             return cid_of_args(delivery.allargs.args, delivery.allargs.kwargs)
+        if delivery.methodname is None and any(delivery.obj is f for cs in self.callables for f in cs.values()):
+            return cid_of_args(delivery.allargs.args, delivery.allargs.kwargs)
         return None
+
+    def method_body(self, d, cid, g):
+        """what every target of direction d does when it gets control: remote_m, the bound method, the function"""
+        self.entered_call(d, cid)
+        if g == "slow":
+            # the method has been entered; its result arrives (or fails) whenever the harness says so
+            dd = defer.Deferred()
+            self.slow[d][cid] = dd
+            return dd
+        return cid
 
     def entered_call(self, d, cid):
         self.events[d].append(("entered", cid))
@@ -314,11 +412,23 @@ class World:
             side.meta[cid] = (kind, FATE.get(kind, 0), stalls)
             self.issued[d].append((cid, kind, stalls))
         kw = dict(cid=cid, a=None, x=1, g=None)
-        if stalls:
+        inner = spec.get("inner") if kind != "local" else None
+        if inner:
+            def hook(calls=list(inner["calls"])):
+                # application code that runs in the middle of this call's serialization and issues calls itself
+                for sp in calls:
+                    self.issue(1 - d if sp.get("rev") else d, sp)
+            if inner["at"] == "copy" and not stalls:
+                kw["a"] = HookCopy(hook)
+            else:
+                kw["a"] = StallArg(side, stalls, {("start" if inner["at"] == "copy" else inner["at"]): hook})
+        elif stalls:
             kw["a"] = StallArg(side, stalls)
+        # a bare callable has no schema: only the kinds that do not depend on one can be addressed to it
+        target = spec.get("target") if kind in ("plain", "slow", "gift", "abort") else None
         useschema = False
         if kind == "gift":
-            ng = 2 if (spec.get("gifts", 1) >= 2 and not stalls) else 1
+            ng = 2 if (spec.get("gifts", 1) >= 2 and not stalls and not inner) else 1
             side.ngifts[cid] = ng
             for j, slot in enumerate(("g", "a")[:ng]):
                 url = gift_url(d, cid, j)
@@ -358,6 +468,15 @@ class World:
         if spec.get("reenter"):
             self.reenter[(d, cid)] = list(spec["reenter"])
         args = ()
+        if target:
+            # RemoteMethodReference.callRemote(**kwargs): no method name, keyword arguments only
+            rr = self.crefs[d][target]
+            if spec.get("only"):
+                rr.callRemoteOnly("", _useSchema=False, **kw)
+            else:
+                dd = rr.callRemote(_useSchema=False, **kw)
+                dd.addBoth(lambda r, cid=cid, d=d, kind=kind: self.results[d].setdefault((cid, kind), short(r)))
+            return
         if spec.get("pos") and "x" in kw:
             # the same call with positional arguments (m(cid, a, x, g)); the last one may stay a keyword
             args = (kw.pop("cid"), kw.pop("a"), kw.pop("x"))
@@ -518,7 +637,7 @@ class World:
         S, R, side = self.brokers[d], self.brokers[1 - d], self.sides[d]
 
         def tracked(o):
-            return isinstance(o, call.CallSlicer) and o.methodname == "m" and cid_of_args(o.args, o.kwargs) in side.meta
+            return isinstance(o, call.CallSlicer) and o.methodname in ("m", "") and cid_of_args(o.args, o.kwargs) in side.meta
         sendq = [cid_of_args(o.args, o.kwargs) for (o, _) in S.rootSlicer.sendQueue if tracked(o)]
         cur = None
         if len(S.slicerStack) > 1 and tracked(S.slicerStack[1][0]):
